@@ -29,7 +29,21 @@ returned state under the same isolation clause.
 The objective used for the gradient is the public loss function named in the
 routine's docstring; where the routine assembles its objective from several
 documented pieces (TD7 critic target, REINFORCE / actor-critic weights, PPO
-advantages) it is re-assembled here from the formula in the docstring.
+advantages) it is re-assembled here from the formula in the docstring.  The
+MR.Q policy objective is written here from its formula (``_mrq_policy_objective``)
+so that a gradient path blocked inside ``mrq_policy_loss`` is visible: with
+activation_weight = 0 and a policy optimizer without weight decay the policy
+must still change, and with plain SGD the parameter step of critic and policy
+must equal -lr times the documented gradient (``sgd_step_differs``).
+
+Multi-task networks (``MTMLPQNetwork``, ``ModelBasedMTEncoder``: backbone plus
+a task-embedding ``nnx.Param``) are covered by ``tsl_multitask``,
+``update_critic_and_policy_mt``, ``update_model_based_encoder_mt`` and
+``pure_eval_mt``.  Their task-embedding rows are set to norms below, exactly
+at, just above and well above ``max_task_embedding_norm``: only ``select_task``
+is documented to renormalise, every forward pass / greedy action / loss
+evaluation / update of another component must leave the embedding
+byte-identical.
 """
 from __future__ import annotations
 
@@ -50,7 +64,12 @@ RULE = (
     "seed and scale, data seed, optimizer kind in {sgd, adam, adamw} (quick tier: lr 0.1 for sgd, 1e-2 "
     "for adam/adamw; thorough: lr in {1e-3, 1e-2, 0.1}), optional optimizer warm-up step, "
     "routine-specific options such as number of gradient steps, termination pattern, head type, "
-    "jit/eager call, cadence counters). All parameters (kernels AND biases, "
+    "jit/eager call, cadence counters; MR.Q: activation_weight in {0, 1e-5, 0.1}). Multi-task sub-checks "
+    "(tsl_multitask, *_mt, pure_eval_mt with the kinds mt_q / mt_encoder) add: number of tasks, embedding size, selected task "
+    "of online and of target network, max_task_embedding_norm in {0.5, 1, 2} and for every task-embedding row its "
+    "norm relative to the maximum from {0.5, exactly 1, 1.0005, 3}, at least one row above the maximum in a drawn "
+    "subset of {online, target} networks; non-trivial additionally needs >= 1 row above the maximum. "
+    "All parameters (kernels AND biases, "
     "layer-norm scales) are re-drawn from the seed; online and target networks get different "
     "values. Non-trivial = the separately computed gradient of the documented loss w.r.t. the "
     "trained component has max-abs > 0 AND at least two distinct non-trained components (modules, "
@@ -71,6 +90,16 @@ ASSUMPTIONS = [
     "for some element; cold adam/adamw (first step has magnitude ~lr): |g_i| >= 1e-5 and 0.9*lr >= 2*spacing(p_i); "
     "after a warm-up step only 'some parameter of the module changed' is required when max|g| >= 1e-3",
     "batch sizes >= 2 (several losses squeeze (1,1) outputs to scalars and reject batch size 1 loudly)",
+    "update_critic_and_policy: the documented policy objective is -mean Q(encode_zsa(zs, pi(zs))) + "
+    "activation_weight * mean(pre-activation^2) with Q the module's __call__ (minimum of both heads) and zs fixed; "
+    "with optax.sgd (stateless) the step of every leaf of q and policy must equal -lr * gradient within 1e-3 of the "
+    "leaf's largest step + 1e-7 * lr + 4 ulp (two separately compiled float32 programs)",
+    "multi-task networks: task_id is set through the attribute TaskSelectionMixin.select_task assigns; only "
+    "MTMLPQNetwork.select_task / ModelBasedMTEncoder.select_task are documented to renormalise the embedding (checked: "
+    "they change nothing but the embedding of their own module and leave rows within the maximum untouched); the "
+    "task embedding is a Param of the network, so an update of that network may change it; ModelBasedMTEncoder is "
+    "only used with normalize_targets=True (its zs sub-network cannot be called on plain observations); 1-D "
+    "observations are not passed to networks with task_embedding_dim = 1 (concatenate_embedding rejects them loudly)",
     "TD7 _train_step: at epochs that are multiples of target_delay the documented hard copies of the target / "
     "fixed networks are allowed (their law is C06's subject); at all other epochs they must be byte-identical",
     "train_ensemble: the first mini-batch depends on the routine's own bootstrap, so only 'some parameter "
@@ -235,7 +264,7 @@ def _mt_fields(draw, c):
     # train_smt / train_active_mt select tasks on the online modules only: the target may sit on another task
     c["task_t"] = _tied(draw, c, [0, 1, 0, 2], st.integers(0, c["n_tasks"] - 1))
     c["max_norm"] = _tied(draw, c, _MT_MAX_NORMS, st.sampled_from([0.5, 1.0, 2.0]))
-    rows = st.lists(st.sampled_from(_MT_NORMS + [3.0]), min_size=c["n_tasks"], max_size=c["n_tasks"])
+    rows = st.lists(st.sampled_from([0.5] + _MT_NORMS), min_size=c["n_tasks"], max_size=c["n_tasks"])
     c["norms"] = draw(rows)
     c["norms_t"] = draw(rows)
     # constructed, not filtered: which of the two networks certainly has a row above the maximum
@@ -1620,8 +1649,8 @@ def run_ensemble(case):
 # pure evaluations: __call__, sample, log_probability, entropy, action samplers
 
 _PURE_KINDS = ["det_policy", "gauss_tanh", "gauss", "softmax", "q_nets", "sale", "mrq_encoder", "ensemble",
-               "samplers", "gradient_fns", "mt_q", "mt_encoder"]
-_MT_KINDS = ("mt_q", "mt_encoder")
+               "samplers", "gradient_fns"]
+_MT_KINDS = ("mt_q", "mt_encoder")  # sub-check pure_eval_mt (own process: keeps pure_eval's wall time)
 
 
 @st.composite
@@ -1630,6 +1659,14 @@ def pure_cases(draw):
     c["kinds"] = sorted(draw(st.lists(st.sampled_from(_PURE_KINDS), min_size=5, max_size=len(_PURE_KINDS),
                                       unique=True)))
     c["single"] = draw(st.integers(0, 1))
+    return c
+
+
+@st.composite
+def pure_mt_cases(draw):
+    c = draw(_base(cfgs=[1, 2]))
+    c["kinds"] = draw(st.sampled_from([["mt_encoder", "mt_q"], ["mt_encoder", "mt_q"], ["mt_q"], ["mt_encoder"]]))
+    c["single"] = 0
     _mt_fields(draw, c)
     c["task2"] = draw(st.integers(0, c["n_tasks"] - 1))  # task chosen by the final select_task
     return c
@@ -1643,8 +1680,11 @@ def run_pure(case):
         ok = ok and finite and n >= 2
     if any(k in _MT_KINDS for k in case["kinds"]):
         above = sum(m > 1.0 for m in case["norms"] + case["norms_t"])
-        labels += ["mt:rows-above=" + ("0" if above == 0 else "1+"),
-                   "mt:selected-row-" + ("above" if case["norms"][case["task"]] > 1.0 else "within")]
+        labels += ["rows-above:online=" + ("0" if max(case["norms"]) <= 1.0 else "1+"),
+                   "rows-above:target=" + ("0" if max(case["norms_t"]) <= 1.0 else "1+"),
+                   "selected-row-" + ("above" if case["norms"][case["task"]] > 1.0 else "within"),
+                   "select_task:" + ("same-task" if case["task2"] == case["task"] else "other-task")]
+        ok = ok and above > 0
     return Outcome(labels=labels + [f"kinds={len(case['kinds'])}"], nontrivial=bool(ok))
 
 
@@ -1753,10 +1793,13 @@ def _pure_kind(case, kind):
         qm = sc.mod("q", _mt_q(case, _seed(ps, 1), case["norms"], case["task"]))
         qm_t = sc.mod("q_target", _mt_q(case, _seed(ps, 2), case["norms_t"], case["task_t"]))
         sc.opt("optimizer", _optimizer(qm, "adam", 1e-2, 1, ps))
-        calls = [lambda: qm(obs), lambda: qm(obs[0]), lambda: qm_t(obs), lambda: qm.task_embedding(obs),
+        # (a single 1-D observation with task_embedding_dim = 1 is rejected by concatenate_embedding with a
+        # TypeError -- loud, and not this property's subject: those calls get a one-row batch instead)
+        one = obs[0] if case["ted"] > 1 else obs[:1]
+        calls = [lambda: qm(obs), lambda: qm(one), lambda: qm_t(obs), lambda: qm.task_embedding(obs),
                  lambda: greedy_policy(qm, obs[0]), lambda: greedy_policy(qm, np.asarray(obs[0])),
                  lambda: greedy_policy(qm_t, obs[0])]
-        select = {"q": (qm, [lambda: qm(obs), lambda: qm_t(obs)]), "q_target": (qm_t, [lambda: qm_t(obs[0])])}
+        select = {"q": (qm, [lambda: qm(obs), lambda: qm_t(obs)]), "q_target": (qm_t, [lambda: qm_t(one)])}
     elif kind == "mt_encoder":
         # multi-task MR.Q networks (create_mt_mrq_state): encoder, policy on zs, double Q on zsa
         ted = case["ted"]
@@ -1770,12 +1813,13 @@ def _pure_kind(case, kind):
         pwe = DeterministicPolicyWithEncoder(enc, pnet)
         pwe_t = DeterministicPolicyWithEncoder(enc_t, pnet)
         act = sc.arr("action", _actions_in_box(case, 2, B, box))
+        one = obs[0] if ted > 1 else obs[:1]
         calls = [lambda: enc.encode_zs(obs), lambda: enc.encode_zsa(enc.encode_zs(obs), act),
-                 lambda: enc.model_head(enc.encode_zs(obs), act), lambda: pwe(obs), lambda: pwe(obs[0]),
+                 lambda: enc.model_head(enc.encode_zs(obs), act), lambda: pwe(obs), lambda: pwe(one),
                  lambda: pwe_t(obs), lambda: qz(enc_t.encode_zsa(enc_t.encode_zs(obs), act)),
                  lambda: enc.task_embedding(act)]
         select = {"encoder": (enc, [lambda: pwe(obs), lambda: enc_t.encode_zs(obs)]),
-                  "encoder_target": (enc_t, [lambda: pwe_t(obs[0])])}
+                  "encoder_target": (enc_t, [lambda: pwe_t(one)])}
     elif kind == "ensemble":
         from rl_blox.blox import probabilistic_ensemble as pe
 
@@ -2119,9 +2163,9 @@ SUBCHECKS = (
         _sc("td7_train_step", td7_step_cases, run_td7_step, cost=3.0),
         _sc("update_critic_and_policy", mrq_cases, run_mrq, quick=30, cost=3.0),
         _sc("update_model_based_encoder", encoder_cases, run_encoder, quick=30, cost=3.0),
-        _sc("tsl_multitask", tsl_mt_cases, run_tsl_mt, quick=30, cost=1.5, rule=_NT_MT),
-        _sc("update_critic_and_policy_mt", mrq_mt_cases, run_mrq, quick=24, cost=3.0, rule=_NT_MT),
-        _sc("update_model_based_encoder_mt", encoder_mt_cases, run_encoder, quick=20, cost=2.5, rule=_NT_MT),
+        _sc("tsl_multitask", tsl_mt_cases, run_tsl_mt, quick=24, cost=1.5, rule=_NT_MT),
+        _sc("update_critic_and_policy_mt", mrq_mt_cases, run_mrq, quick=20, cost=3.0, rule=_NT_MT),
+        _sc("update_model_based_encoder_mt", encoder_mt_cases, run_encoder, quick=16, cost=2.5, rule=_NT_MT),
         _sc("update_ppo", ppo_cases, run_ppo, quick=30, cost=2.0),
         _sc("train_policy_a2c", a2c_cases, run_a2c_policy),
         _sc("train_value_function", value_cases, run_value_function),
@@ -2131,6 +2175,9 @@ SUBCHECKS = (
         SubCheck("pure_eval", pure_cases, run_pure, quick=30, thorough=200, shards=1, shards_thorough=4, cost=2.0,
                  shrink=False, suppress_too_slow=True, simplify=_simplify,
                  rule=">= 2 components snapshotted and finite outputs"),
+        SubCheck("pure_eval_mt", pure_mt_cases, run_pure, quick=20, thorough=150, shards=1, shards_thorough=4,
+                 cost=1.5, shrink=False, suppress_too_slow=True, simplify=_simplify,
+                 rule=">= 2 components snapshotted, finite outputs and >= 1 task-embedding row above the maximum norm"),
         SubCheck("history", history_cases, run_history, quick=32, thorough=150, shards=2, shards_thorough=8, cost=6.0,
                  shrink=False, suppress_too_slow=True, simplify=_simplify_history,
                  rule="every applied update changed its trained component, >= 2 other components and >= 1 pair "
